@@ -116,7 +116,7 @@ theorem valid_phantom (p : Nat) {o : PhantomObs} (h : PhantomOk o) :
     validNode schema "phantomObstacle" (phantomNode p o) = true := by
   obtain ⟨hid, os, ho, hne, hos⟩ := h
   have hm : matchGroup (schema.content "phantomObstacle") ["occupancySet"] = some ["phantomObstacle/occupancySet"] := by decide
-  rw [phantomNode, ho, id_valid it_phantom hid (ts := ["phantomObstacle/occupancySet"])
+  rw [phantomNode, ho, optOccSetNodes, id_valid it_phantom hid (ts := ["phantomObstacle/occupancySet"])
     (by simpa [occSetNode, el, Xml.name] using hm)]
   simp only [validKids, valid_occSet _ pt_phOccSet (by decide) (by decide) p hne hos, Bool.and_self]
 
@@ -144,7 +144,7 @@ theorem valid_dynamic (p : Nat) {o : DynObs} (h : DynOk o) : validNode schema "d
       validNode schema "dynamicObstacle/signalSeries" (el "signalSeries" (o.series.map (signalNode "signalState"))) = true := by
     intro hne
     exact valid_series (by intro h; rw [h] at hne; simp at hne) hser
-  unfold dynNode
+  unfold dynNode sig0Nodes predNodes seriesNodes
   cases hsig : o.sig0 with
   | none =>
     cases hp : o.pred with
